@@ -1,6 +1,6 @@
 (* Driver: C18 (a value means the same in every representation). *)
 From Coq Require Import List ZArith String Ascii Bool Arith.
-From SMD Require Import Base.Sexp Model.Value Model.Order Model.Schema Model.Reflect Model.Codec
+From SMD Require Import Base.Sexp Model.Value Model.Order Model.Schema Model.Reflect Model.MapOps Model.Codec
   Driver.Common.
 Import ListNotations.
 Open Scope string_scope.
@@ -105,4 +105,67 @@ Definition run_c18_codec (v j y : sexp) : outcome :=
       mkOut (chk j "prop C18 JSON encode/decode gives back an equal value" @@
              chk y "prop C18 YAML encode/decode gives back an equal value") 2 1 []
   | _, _ => out_bad "c18.codec"
+  end.
+
+(* ---- Set / Delete through the Map interface ---- *)
+Definition dec_mstep (x : sexp) : option mstep :=
+  match x with
+  | SList [SAtom "k"; SAtom k] => Some (MKey k)
+  | SList [SAtom "i"; n] => do z <- dec_int n; Some (MIdx (Z.to_nat z))
+  | _ => None
+  end.
+
+(* what encoding/json's omitempty calls empty *)
+Definition empty_for_omit (v : value) : bool :=
+  match v with
+  | VNull | VBool false | VStr "" | VList [] | VMap [] => true
+  | VInt z => Z.eqb z 0
+  | VFloat q => Z.eqb (QArith_base.Qnum q) 0
+  | _ => false
+  end.
+
+Definition run_c18_mut (kind before path op key val omit after : sexp) : outcome :=
+  match dec_value before, path, op, key, dec_bool omit with
+  | Some before, SList (SAtom "path" :: steps), SAtom op, SAtom key, Some omit =>
+      match map_opt dec_mstep steps with
+      | None => out_bad "c18.mut path"
+      | Some p =>
+          match after with
+          | SAtom "panic" => mkOut ["prop C18 Set/Delete through the Map interface panicked"] 1 1 ["mut"; op]
+          | _ =>
+              match dec_value after, (match val with SAtom "-" => Some VNull | _ => dec_value val end) with
+              | Some after, Some val =>
+                  let removes := String.eqb op "delete" || (String.eqb op "set" && omit && empty_for_omit val) in
+                  let f (m : list (string * value)) :=
+                    if removes then vmap_delete key m
+                    else if String.eqb op "nullify" then vmap_set key VNull m
+                    else vmap_set key val m in
+                  let corr :=
+                    chk (match update_at p f before with
+                         | Some e => value_deep_eqb e after
+                         | None => false
+                         end) "corr Set/Delete on the unstructured view" in
+                  let prop_msgs :=
+                    match lookup_at p before, lookup_at p after with
+                    | Some (VMap m), Some (VMap m') =>
+                        chk (value_deep_eqb (VMap (vmap_delete key m)) (VMap (vmap_delete key m')))
+                            "prop C18 Set/Delete through the Map interface changes exactly that entry: another entry of the same map changed" @@
+                        chk (match update_at p (fun _ => m) after with
+                             | Some back => value_deep_eqb back before
+                             | None => false
+                             end)
+                            "prop C18 Set/Delete through the Map interface changes exactly that entry: something outside the map changed" @@
+                        chk (match vmap_get key m' with
+                             | None => removes
+                             | Some x => negb removes && value_deep_eqb x (if String.eqb op "nullify" then VNull else val)
+                             end)
+                            "prop C18 after Set the entry holds the value, after Delete it is gone"
+                    | _, _ => ["prop C18 Set/Delete through the Map interface: the map is no longer where it was"]
+                    end in
+                  mkOut (corr @@ prop_msgs) 4 1 ["mut"; op]
+              | _, _ => out_bad "c18.mut values"
+              end
+          end
+      end
+  | _, _, _, _, _ => out_bad "c18.mut"
   end.
